@@ -119,6 +119,13 @@ def _gen_stmt(rng, layout, here, is_init, cfg, idx, in_class=False):
             # a base written as an attribute access: the path to it can pass through (dangling, cyclic) aliases
             bases[0] = rng.choice(MODS + ["m", "s"]) + "." + bases[0]
         st = {"s": "class", "name": rng.choice(["C", "C", "h"]), "body": body, "bases": bases}
+        if rng.random() < 0.15:
+            # decorated with a name of the module scope (a re-exported decorator: any alias, cyclic or dangling) or with
+            # an attribute of one (`@m.f`): extensions look decorators up while the package is being loaded
+            deco = rng.choice(NAMES)
+            st["deco"] = deco if rng.random() < 0.7 else rng.choice(MODS + ["m", "s"]) + "." + deco
+            if rng.random() < 0.3:
+                st["deco"] += "(frozen=True)"
         if cfg.get("dataclasses") and rng.random() < 0.6:
             # the built-in dataclasses extension synthesises __init__ from the class body and the MRO while loading
             # (arguments unpacked from a module-level name: the extension looks that name up, and it can be any alias)
@@ -174,6 +181,8 @@ def _render_stmt(st, ind=""):
         if st.get("dataclass"):
             imp = "import dataclasses" if st["dataclass"].startswith("dataclasses.") else "from dataclasses import dataclass"
             deco = f"{ind}{imp}\n{ind}@{st['dataclass']}\n"
+        if st.get("deco"):
+            deco = deco + f"{ind}@{st['deco']}\n"
         return f"{deco}{ind}class {st['name']}{bases}:\n{body}"
     if s == "from":
         return f"{ind}from {st['mod']} import {st['name']}" + (f" as {st['as']}" if st["as"] else "") + "\n"
@@ -346,8 +355,20 @@ def generate(rng, opts):
         for mp in modules:
             modules[mp]["stmts"] = _strip(modules[mp]["stmts"])
         ring_motif = True
+    pending_star_motif = None
+    if rng.random() < 0.03 and not ring_motif:
+        # motif: a wildcard import whose source path (`_p.x`) only exists once another wildcard (in `_p`, from `ext`)
+        # has been expanded, both packages being loaded on demand during the same round (random generation lines
+        # this up about once in 15,000 histories; it was behind the repaired C06-KF4)
+        holder = rng.choice(list(layout))
+        modules["ext"] = {"init": True, "stmts": [{"s": "from", "mod": "_p", "name": "x", "as": None}]}
+        modules["ext.x"] = {"init": False, "stmts": [{"s": "def", "name": "g", "doc": False}]}
+        modules["_p"] = {"init": True, "stmts": [{"s": "star", "mod": "ext"}]}
+        modules.pop("_p.x", None)
+        modules[holder]["stmts"] = [{"s": "star", "mod": "_p.x"}, {"s": "from", "mod": "ext", "name": "x", "as": "C"}] + [st for st in modules[holder]["stmts"] if st["s"] not in ("all", "allplus")]
+        pending_star_motif = holder
     stubs = {}
-    if cfg["external"] and rng.random() < 0.3:
+    if cfg["external"] and rng.random() < 0.3 and pending_star_motif is None:
         # top-level stubs next to an external package; broken stubs make its on-demand load fail *after* the runtime
         # package was registered in the collection
         for pkg in rng.sample(["ext", "_p"], rng.choice([1, 2])):
@@ -406,6 +427,8 @@ def generate(rng, opts):
             ops.append({"op": "load", "pkg": rng.choice(["nopkg", "ext", "p"]), "loader": rng.randrange(2)})
     if rng.random() < 0.5:
         ops.append({"op": "resolve", "loader": 0, "implicit": True, "external": rng.choice([True, False, None]), "max_iter": None})
+    if pending_star_motif is not None:
+        ops = [{"op": "load", "pkg": pending_star_motif, "loader": 0}, {"op": "resolve", "loader": 0, "implicit": True, "external": True, "max_iter": None}] + ops
     if ring_motif:
         for _ in range(6):
             ops.append({"op": "deref", "k": rng.randrange(64), "acc": "has_docstrings"})
@@ -417,7 +440,10 @@ def generate(rng, opts):
         # (every load here names its package, never a path: the working directory must not matter)
         for name in rng.sample(sorted({mp.split(".")[0] for mp in modules} | {"nopkg", "_q"}), rng.choice([1, 2, 3])):
             cwd_entries.append({"name": name, "kind": rng.choice(["file", "dir", "pkgdir"])})
-    return {"world": {"modules": modules, "stubs": stubs, "stubs_pkgs": stubs_pkgs}, "faults": faults, "ops": ops, "cfg": cfg, "cwd_entries": cwd_entries}
+    # environment fault: the working directory of the process no longer exists (a temporary build directory that was
+    # removed, a checkout deleted under a long-running tool): everything that asks for it fails with FileNotFoundError
+    cwd_deleted = not cwd_entries and rng.random() < 0.06
+    return {"world": {"modules": modules, "stubs": stubs, "stubs_pkgs": stubs_pkgs}, "faults": faults, "ops": ops, "cfg": cfg, "cwd_entries": cwd_entries, "cwd_deleted": cwd_deleted}
 
 
 # ------------------------------------------------------------------------------------------------
@@ -658,6 +684,12 @@ def _execute(plan, ctx, budget_mode):
                             fh.write("shadow = 1\n")
             os.chdir(cwd)
             ctx.fault("working-directory-holds-namesakes")
+        if plan.get("cwd_deleted"):
+            gone = os.path.join(w.root, "gone")
+            os.makedirs(gone, exist_ok=True)
+            os.chdir(gone)
+            os.rmdir(gone)
+            ctx.fault("working-directory-deleted")
         try:
             with seam.installed():
                 for oi, op in enumerate(plan["ops"]):
@@ -1012,7 +1044,7 @@ class _Prop:
         "(implicit x external in {True, False, None} x max_iterations), lazy dereference of the k-th alias through "
         "20 accessors, direct expand_exports/expand_wildcards, full JSON; optional syntax/read faults in lazily "
         "loaded packages. Invariants I1-I5 after every operation. Non-trivial = the tree holds at least one alias "
-        "and two operations ran; distinct = distinct (operation/outcome trace, end-state digest). Also drawn: class bases through aliases, guarded (TYPE_CHECKING / try / if) imports, module docstrings, __all__ splices through aliases of modules (planted alias rings), direct alias.target = other links, dotted-object and submodules=False loads, reloads of packages already held, external packages with valid or broken top-level stubs, a <pkg>-stubs package in a second search path loaded with find_stubs_package=True. Round j/k: planted wildcard motifs (star from a self-cyclic name, star of a module that stars itself, star through an alias of a module, star importing the name of the sub-module it comes from), @dataclass classes (three spellings) with annotated fields and class-level imports, bases written as attribute accesses."
+        "and two operations ran; distinct = distinct (operation/outcome trace, end-state digest). Also drawn: class bases through aliases, guarded (TYPE_CHECKING / try / if) imports, module docstrings, __all__ splices through aliases of modules (planted alias rings), direct alias.target = other links, dotted-object and submodules=False loads, reloads of packages already held, external packages with valid or broken top-level stubs, a <pkg>-stubs package in a second search path loaded with find_stubs_package=True. Round r/s: decorators bound to imported names, a deleted working directory, planted motifs for mutual public re-exports and for a wildcard enabled by another wildcard of an on-demand package. Round j/k: planted wildcard motifs (star from a self-cyclic name, star of a module that stars itself, star through an alias of a module, star importing the name of the sub-module it comes from), @dataclass classes (three spellings) with annotated fields and class-level imports, bases written as attribute accesses."
     )
     COMPONENTS = {
         "real": ["_griffe.loader (load, resolve_aliases, expand_exports, expand_wildcards)", "_griffe.models.Alias", "_griffe.mixins", "_griffe.agents.visitor", "_griffe.finder", "real files on tmpfs"],
